@@ -183,6 +183,9 @@ func (c c04) Case(w *core.WCtx, payload json.RawMessage) core.Result {
 				r.Evals++
 				if msg := rioSeqWord(path, cfg.RBuf, m, word, n+1); msg != "" {
 					sig := ""
+					if cfg.Direct && word&(1<<uint(n)) != 0 && strings.Contains(msg, "SkipNext at end") {
+						sig = "D18-skipnext-zero-tail"
+					}
 					// D1: SkipNext over a nil record of a compressed file
 					for i := 0; i < n; i++ {
 						if word&(1<<uint(i)) != 0 && m.Recs[i] == nil && cfg.Comp != 0 {
